@@ -33,7 +33,7 @@ func scratchRoot() string {
 // execBatch runs the scenarios segment by segment: one fresh OS process per segment index
 // executes that segment of every scenario (sequentially, each on its own database folder).
 // A scenario therefore sees empty L1/L2 caches at the start of each of its segments.
-func execBatch(scs []*Scenario, base int) ([][]Obs, []error) {
+func execBatch(scs []*Scenario, base int, smallL1 bool) ([][]Obs, []error) {
 	root := scratchRoot()
 	batch := make([]BatchItem, len(scs))
 	maxSeg := 0
@@ -60,6 +60,9 @@ func execBatch(scs []*Scenario, base int) ([][]Obs, []error) {
 	for s := 0; s < maxSeg; s++ {
 		cmd := exec.Command(selfExe(), "child:seg", spec, fmt.Sprint(s))
 		cmd.Dir = root
+		if smallL1 {
+			cmd.Env = append(os.Environ(), "VERIF_C38_SMALL_L1=1")
+		}
 		outb, err := cmd.CombinedOutput()
 		var line string
 		for _, l := range strings.Split(string(outb), "\n") {
@@ -142,8 +145,9 @@ func oracle(sc *Scenario, obs []Obs) (fails []string, whats []string) {
 		committed[k] = dataOf(sc.Kind, d)
 	}
 	type hinfo struct {
-		key int
-		api string
+		key   int
+		api   string
+		l2hit bool // read in a transaction whose node came through the L1-miss / L2-hit branch of L1Cache.GetNode
 	}
 	handles := map[int]hinfo{}
 	type write struct {
@@ -153,14 +157,29 @@ func oracle(sc *Scenario, obs []Obs) (fails []string, whats []string) {
 		replace   bool
 		seg, txid int
 		drops     int
+		l2hit     bool
+	}
+	// where the value of a separate-segment store really lives: a freshly created node blob carries the
+	// values too; once the items were updated the slots carry no value and every transaction fetches its own
+	// (observed on the unchanged code: true for actively persisted "big" stores; a "medium" store's node keeps
+	// handing out the shared value after an update as well, so it stays in the in-node class)
+	pclass := "in-node-blob"
+	if sc.Placement == "big" && sc.PreUpdate {
+		pclass = "separate"
 	}
 	writes := map[int][]write{}
 	oi := 0
 	txid := 0
 	for si, seg := range sc.Segs {
+		// L1-miss/L2-hit with a usable version: the node was loaded off the blob store by this process (which puts
+		// a copy with the right version into L2), then left L1, and no commit of this process has rewritten it since
+		segFetched, segDirty, dropped := false, false, false
 		for _, st := range seg {
 			switch st.Op {
-			case "dropl1":
+			case "setup":
+				segDirty = true
+			case "dropl1", "evict":
+				dropped = true
 				for k := range writes {
 					for i := range writes[k] {
 						writes[k][i].drops++
@@ -168,6 +187,9 @@ func oracle(sc *Scenario, obs []Obs) (fails []string, whats []string) {
 				}
 			case "tx":
 				txid++
+				txL2hit := segFetched && dropped && !segDirty
+				segFetched, dropped = true, false
+				hasUpdate := false
 				own := map[int][]int{}
 				absorbed := map[int]int{} // key -> number of in-place writes made before its write-back
 				for _, a := range st.Acts {
@@ -178,7 +200,7 @@ func oracle(sc *Scenario, obs []Obs) (fails []string, whats []string) {
 					oi++
 					switch a.Op {
 					case "read":
-						handles[a.H] = hinfo{a.Key, a.API}
+						handles[a.H] = hinfo{a.Key, a.API, txL2hit}
 						want := committed[a.Key]
 						if w, ok := own[a.Key]; ok {
 							want = w
@@ -210,6 +232,10 @@ func oracle(sc *Scenario, obs []Obs) (fails []string, whats []string) {
 									where = "durable" // served from the L2 cache or the blob store: the write was persisted
 								case w.txid == txid:
 									where = "same-tx"
+								case w.l2hit:
+									// the writer's node came through the L2-hit branch: its own signature class, split by
+									// where the store keeps the value (privacy HOLDS there for separate value segments)
+									where = "l2-hit/" + pclass
 								default:
 									where = "l1"
 								}
@@ -224,11 +250,12 @@ func oracle(sc *Scenario, obs []Obs) (fails []string, whats []string) {
 						if !ok || !o.Found {
 							continue
 						}
-						writes[h.key] = append(writes[h.key], write{api: h.api, depth: a.Depth, val: a.Val, replace: a.Op == "replace", seg: si, txid: txid})
+						writes[h.key] = append(writes[h.key], write{api: h.api, depth: a.Depth, val: a.Val, replace: a.Op == "replace", seg: si, txid: txid, l2hit: h.l2hit})
 					case "update":
 						if o.Found {
 							own[a.Key] = o.Snap
 							absorbed[a.Key] = len(writes[a.Key])
+							hasUpdate = true
 						}
 					}
 				}
@@ -236,6 +263,9 @@ func oracle(sc *Scenario, obs []Obs) (fails []string, whats []string) {
 					for k, v := range own {
 						committed[k] = v
 						writes[k] = writes[k][absorbed[k]:] // later in-place writes were not written back
+					}
+					if hasUpdate {
+						segDirty = true
 					}
 				}
 			}
@@ -283,7 +313,7 @@ func coqScenario(sc *Scenario, obs []Obs) string {
 		}
 		for _, st := range seg {
 			switch st.Op {
-			case "dropl1":
+			case "dropl1", "evict":
 				evs = append(evs, "EDropL1")
 			case "tx":
 				var as []string
@@ -318,19 +348,34 @@ var caseSeq int
 func c38Case(res *hx.Result, sc *Scenario, tag string) { queue = append(queue, pending{sc, tag}) }
 
 func flush(res *hx.Result) {
+	// scenarios that rely on natural eviction run in processes with a tiny L1 (public capacity knobs)
+	var normal, small []pending
+	for _, p := range queue {
+		if p.sc.Fillers > 0 {
+			small = append(small, p)
+		} else {
+			normal = append(normal, p)
+		}
+	}
+	queue = nil
+	flushPart(res, normal, false)
+	flushPart(res, small, true)
+}
+
+func flushPart(res *hx.Result, q []pending, smallL1 bool) {
 	const B = 250
-	for len(queue) > 0 {
-		n := len(queue)
+	for len(q) > 0 {
+		n := len(q)
 		if n > B {
 			n = B
 		}
-		part := queue[:n]
-		queue = queue[n:]
+		part := q[:n]
+		q = q[n:]
 		scs := make([]*Scenario, n)
 		for i := range part {
 			scs[i] = part[i].sc
 		}
-		obs, errs := execBatch(scs, caseSeq)
+		obs, errs := execBatch(scs, caseSeq, smallL1)
 		caseSeq += n
 		for i := range part {
 			record(res, part[i].sc, part[i].tag, obs[i], errs[i])
@@ -435,6 +480,37 @@ func durableScenario(kindName, api string, depth int) *Scenario {
 		},
 		{{Op: "tx", Mode: "r", End: "commit", Acts: []Act{{Op: "read", Key: 0, API: "value", H: 2}, {Op: "read", Key: 1, API: "value", H: 3}, {Op: "read", Key: 2, API: "value", H: 4}}}},
 	}}
+}
+
+// l2hitScenario drives the L1-miss / L2-hit branch of L1Cache.GetNode with a version that matches the handle:
+// fresh process (empty L2) -> a transaction loads the node off the blob store (copy with the right version goes
+// to L2) -> the node leaves L1 (natural eviction from a tiny L1, or the drop hook) -> reader R1 fetches the node
+// through L2, reads key 0, writes to what it got in place (and, in-node, writes key 2 back) and rolls back ->
+// R2 (same process), R3 (after another eviction) and a fresh process must read the committed values.
+func l2hitScenario(kindName, placement string, preUpdate bool, api string, depth int, natural bool) *Scenario {
+	sc := &Scenario{Kind: kindName, Placement: placement, Init: []int{11, 22, 33}, PreUpdate: preUpdate}
+	out := Step{Op: "dropl1"}
+	if natural {
+		sc.Fillers = 6
+		out = Step{Op: "evict"}
+	}
+	r1 := Step{Op: "tx", Mode: "w", End: "rollback", Acts: []Act{
+		{Op: "read", Key: 0, API: api, H: 1},
+		{Op: "mut", H: 1, Depth: depth, Val: 99},
+	}}
+	if placement == "node" {
+		// a rolled-back write-back must not reach the shared entry either
+		r1.Acts = append(r1.Acts, Act{Op: "read", Key: 2, API: "value", H: 2}, Act{Op: "replace", H: 2, Val: 77}, Act{Op: "update", Key: 2, H: 2})
+	}
+	look := func(h int) Step {
+		return Step{Op: "tx", Mode: "r", End: "commit", Acts: []Act{{Op: "read", Key: 0, API: "value", H: h}, {Op: "read", Key: 2, API: "value", H: h + 1}, {Op: "read", Key: 1, API: "value", H: h + 2}}}
+	}
+	sc.Segs = [][]Step{
+		{setupStep()},
+		{{Op: "tx", Mode: "r", End: "commit", Acts: []Act{{Op: "read", Key: 1, API: "value", H: 0}}}, out, r1, look(3), out, look(6)},
+		{look(9)},
+	}
+	return sc
 }
 
 func genScenario(r *hx.Rng) *Scenario {
@@ -589,6 +665,29 @@ func runC38(cfg *hx.RunCfg) (*hx.Result, error) {
 				c38Case(res, durableScenario(kn, "value", d), "corpus-durable")
 			}
 			c38Case(res, durableScenario(kn, "item", d), "corpus-durable")
+		}
+	}
+	// corpus: the L1-miss / L2-hit path, per kind, placement state and API
+	type pst struct {
+		placement string
+		pre       bool
+	}
+	for _, ps := range []pst{{"node", false}, {"big", true}, {"medium", true}, {"big", false}, {"medium", false}} {
+		for _, kn := range kinds {
+			if ps.placement != "node" && !ps.pre && kn != "bytes" && kn != "ptr" {
+				continue
+			}
+			for _, api := range []string{"value", "item"} {
+				if !thorough && api == "item" && kn != "bytes" && kn != "string" {
+					continue
+				}
+				for _, d := range mutDepths(kn) {
+					c38Case(res, l2hitScenario(kn, ps.placement, ps.pre, api, d, false), "corpus-l2hit")
+					if thorough || (kn == "bytes" && api == "value") || (kn == "string" && api == "item") {
+						c38Case(res, l2hitScenario(kn, ps.placement, ps.pre, api, d, true), "corpus-l2hit-evict")
+					}
+				}
+			}
 		}
 	}
 	n := cfg.N
